@@ -61,6 +61,13 @@ def plan(tier, seed):
                           containers=6 if q else 40, seed=seed + 21,
                           tier=tier, variant='asan',
                           timeout=1500 if q else 7200))
+    # memcheck: a half-built vector that is read after a failed allocation
+    # is an uninitialised read, which ASan cannot see
+    for fam in (['OO'] if q else ['OO', 'II', 'fs', 'LF', 'QO']):
+        specs.append(dict(label=fam + '-valgrind', family=fam,
+                          containers=2 if q else 12, seed=seed + 23,
+                          tier=tier, variant='vg',
+                          timeout=1800 if q else 7200))
     return specs
 
 
